@@ -21,7 +21,7 @@
    harness/props/c19.py (to_dict equality and outcome equality of the reloaded object); the harness checks that the list
    coincides with what it treats specially (harness/props/sigcheck.py). *)
 From Coq Require Import ZArith List String Bool Ascii Lia.
-From VL Require Import Gen.Signatures Model.Persist Proofs.Persist_proofs.
+From VL Require Import Gen.Signatures Model.Persist Proofs.Persist_proofs Proofs.PersistRejects_proofs.
 Import ListNotations.
 Open Scope string_scope.
 
@@ -179,7 +179,7 @@ Theorem C19_class_roundtrip : forall E c (args : record pval),
   class_ok c = true -> map fst args = map p_name (c_params c) ->
   representable E (pobj c args) = true ->
   exists j, construct c args = Some args /\ to_dict_params c args = Some args /\
-            serialize_value (pobj c args) = SOk j /\
+            serialize_value E (pobj c args) = SOk j /\
             from_dict E j = DOk (pobj c args) /\ from_dict E (json_rt j) = DOk (pobj c args).
 Proof.
   intros E c args Hok Hargs Hrep.
@@ -195,7 +195,10 @@ Qed.
                        a default object in place of None): to_dict emits the normalised value, which the constructor accepts
      hand-written      to_dict is written by hand (delegates to an inner object)
      serialize_params  to_dict emits a chosen subset of the parameters (serialize_params); the others only feed defaults
-     known:<id>        the class is the site of a recorded finding of C19 (known_findings.json) *)
+     known:<id>        the class is the site of a recorded finding of C19 (known_findings.json) - none at present: the
+                       validators (C19-rank-defaultdict, repaired: their checkers are a DefaultedCheckers object, itself a
+                       class with the premise) are listed for serialize_params, ThresholdOpenList (C19-closures, repaired:
+                       the fractional quota is saved as the quota function given) as normalising *)
 Definition exceptions : list (string * string) := [
   ("votelib.candidate.Person", "normalised");
   ("votelib.candidate.PoliticalParty", "normalised");
@@ -203,9 +206,9 @@ Definition exceptions : list (string * string) := [
   ("votelib.convert.ScoreToSimpleVotes", "normalised");
   ("votelib.vote.VoteMagnitudeChecker", "hand-written");
   ("votelib.vote.ApprovalVoteValidator", "serialize_params");
-  ("votelib.vote.RankedVoteValidator", "known:C19-rank-defaultdict");
-  ("votelib.vote.EnumScoreVoteValidator", "known:C19-rank-defaultdict");
-  ("votelib.vote.RangeVoteValidator", "known:C19-rank-defaultdict");
+  ("votelib.vote.RankedVoteValidator", "serialize_params");
+  ("votelib.vote.EnumScoreVoteValidator", "serialize_params");
+  ("votelib.vote.RangeVoteValidator", "serialize_params");
   ("votelib.evaluate.approval.QuotaSelector", "normalised");
   ("votelib.evaluate.cardinal.ScoreVoting", "hand-written");
   ("votelib.evaluate.cardinal.MajorityJudgment", "hand-written");
@@ -215,7 +218,7 @@ Definition exceptions : list (string * string) := [
   ("votelib.evaluate.condorcet.RankedPairs", "normalised");
   ("votelib.evaluate.core.UnusedVotesDistributor", "normalised");
   ("votelib.evaluate.core.Conditioned", "normalised");
-  ("votelib.evaluate.openlist.ThresholdOpenList", "known:C19-closures");
+  ("votelib.evaluate.openlist.ThresholdOpenList", "normalised");
   ("votelib.evaluate.proportional.QuotaDistributor", "normalised");
   ("votelib.evaluate.proportional.LargestRemainder", "hand-written");
   ("votelib.evaluate.proportional.HighestAverages", "normalised");
@@ -326,7 +329,7 @@ Theorem C19_class_roundtrip_table : forall E c (args : record pval),
   map fst args = map p_name (c_params c) ->
   forallb (fun kv => representable E (snd kv)) args = true ->
   exists j, construct c args = Some args /\ to_dict_params c args = Some args /\
-            serialize_value (pobj c args) = SOk j /\
+            serialize_value E (pobj c args) = SOk j /\
             from_dict E j = DOk (pobj c args) /\ from_dict E (json_rt j) = DOk (pobj c args).
 Proof.
   intros E c args HE Hin Hok Hargs Hvals.
@@ -357,7 +360,7 @@ Example C19_class_example :
   match ex_cls with
   | Some c => class_ok c && strs_eqb (map fst ex_args) (map p_name (c_params c))
               && forallb (fun kv => representable ex_env (snd kv)) ex_args
-              && match serialize_value (pobj c ex_args) with
+              && match serialize_value ex_env (pobj c ex_args) with
                  | SOk j => match from_dict ex_env (json_rt j) with DOk v => pval_eqb v (pobj c ex_args) | _ => false end
                  | SErr => false
                  end
